@@ -68,3 +68,26 @@ Proof.
       eapply ESeqN; [apply (ERead 10 0)|apply EBind].
     + apply EForExit. apply ESkip.
 Qed.
+
+(* Without the restriction "no return inside a try that has a finally" the statement is FALSE of
+   the faithful model: known finding K3.
+       try:     x = 1 (site 1); if c: return; x = 2 (site 2)
+       finally: print(x) (read 10)
+   The execution that returns reads site 1 in the finally clause; supp lists only site 2 (and
+   reports site 1 as unused). *)
+Definition ex_k3 : cmd :=
+  Try false (Seq (Bind 1 0) (Seq (Branch Return Skip) (Bind 2 0))) false HNil Skip (Read 10 0).
+Theorem C02_unrestricted_refuted :
+  ok ex_k3 = false /\
+  (exists tr o p', exec ex_k3 renv0 tr o p' /\ In (10, Some 1) tr) /\
+  ~ In (Some 1) (seen ex_k3 aenv0 10) /\ used ex_k3 aenv0 1 = false.
+Proof.
+  split; [reflexivity|]. split; [|split; [vm_compute; intros [H|[]]; discriminate|reflexivity]].
+  exists [(10, Some 1)], ORet, (upd renv0 0 (Some 1)). split; [|left; reflexivity].
+  unfold ex_k3. change [(10, Some 1)] with ([] ++ [(10, Some 1)]).
+  eapply (ETryBodyRet false _ false HNil Skip (Read 10 0) renv0 [] (upd renv0 0 (Some 1)) [(10, Some 1)] ONorm).
+  - change (@nil (site * alt)) with (@nil (site * alt) ++ []).
+    eapply ESeqN; [apply EBind|]. apply ESeqR. apply EBrL. apply EReturn.
+  - apply (ERead 10 0 (upd renv0 0 (Some 1))).
+Qed.
+Print Assumptions C02_unrestricted_refuted.
